@@ -35,7 +35,7 @@ for _k in filter(None, os.environ.get("C05_OLD", "").split(",")):
 
 OPS = ["children", "children_rec", "parent", "parents"]
 HANG_S = 0.4      # guard for a call the model predicts not to terminate
-SLOW_S = 20.0     # guard for every other call
+SLOW_S = 6.0      # guard for every other call (a call on <= 40 fake processes takes milliseconds)
 
 
 # ------------------------------------------------------------------ generation
@@ -114,7 +114,7 @@ def _mk(op, tab, pid, ident, cached, cache, gone, cls):
 
 def gen_cases(rng, tier):
     n_rand = {"quick": 900, "thorough": 30000, "search": 2500}[tier]
-    max_hang = {"quick": 30, "thorough": 400, "search": 40}[tier]
+    max_hang = {"quick": 40, "thorough": 400, "search": 40}[tier]
     cases = []
     hang = 0
     # ---- exhaustive small scope
